@@ -1,12 +1,12 @@
 SPECIFICATION Spec
 CONSTANTS NB = 3
- Confs <- McNone
- NT = 3
+ Confs <- McConfs2
+ NT = 0
  MaxDup = 1
  Races = TRUE
  BugAddMiddle = FALSE
- BugTxLoopVar = TRUE
- BugConfirmRace = FALSE
-INVARIANTS TxOnce
+ BugTxLoopVar = FALSE
+ BugConfirmRace = TRUE
+INVARIANTS ConfirmsKept
 PROPERTY Forward
 CHECK_DEADLOCK FALSE
